@@ -53,8 +53,7 @@ func nowNs() int64 {
 	if core.Active() {
 		// reading the clock is a scheduling point: the thread may be descheduled between the
 		// statement before and this read, and ticks may pass meanwhile
-		core.Yield(core.KLoad, nil)
-		return core.Now()
+		return core.ClockRead()
 	}
 	Reads++
 	if OnRead != nil {
